@@ -19,6 +19,7 @@ def run(ctx, idx):
     ctx.rule("C02.a", "Lazy by-name resolution: no Parameter.clean is reachable from Program.from_source / add_command over the call graph; the command table is indexed by a run-time name only in ResultParameter.clean (forward references are indistinguishable from backward ones).")
     ctx.rule("C02.b", "execute is a function of its inputs: no execute or helper stores to self, reads self.program / registry state, or touches files or the console except the I/O commands (those declaring a path parameter, and PrintVars).")
     ctx.rule("C02.c", "Metadata is inert: every execute accepts **kwargs, none reads key 'Metadata', delegating subclasses forward **kwargs.")
+    ctx.rule("C02.e", "No execute writes in place through one of its inputs (the alias rule of C09.a): otherwise a shared intermediate result changes under its other consumers and the outcome depends on file order.")
     ctx.rule("C02.d", "Composability: every command whose output is Data returns kind Masked on every normal return, assuming its Data inputs are Masked (induction on graph depth).")
     # ---- a
     prog = A.program
@@ -77,6 +78,15 @@ def run(ctx, idx):
             ctx.violate("C02.b", con, d.module.rel, probs[0][0], "; ".join(p for _, p in probs[:3]))
         else:
             ctx.hold("C02.b", con, d.module.rel, fi.node.lineno, "no self/global stores; effects: %s" % (sorted({e[0] for e in r.effects}) or "none"), nontrivial=bool(r.effects))
+        # e: a consumer that writes through an input makes results depend on who else consumes it, and in which order
+        from engine.arrays import is_input_token
+        shared = sorted({a for w in r.writes for a in w.alias if is_input_token(a) and a != "self"})
+        con = "%s.execute::leaves-inputs-alone" % d.key
+        if shared:
+            w0 = [w for w in r.writes if any(is_input_token(a) and a != "self" for a in w.alias)][0]
+            ctx.violate("C02.e", con, d.module.rel, w0.line, "%s writes in place through its input %s (%s): every other consumer of that result sees the change if it runs later, so results depend on command order" % (d.cls.name, R.tok_text(shared), w0.what))
+        else:
+            ctx.hold("C02.e", con, d.module.rel, fi.node.lineno, "no in-place write reaches an input", nontrivial=bool(r.writes))
         # c
         own = d.cls.methods.get("execute")
         con = "%s.execute::metadata-inert" % d.key
@@ -99,6 +109,11 @@ def run(ctx, idx):
                 con = R.ret_key(d, n) + "::masked"
                 if isinstance(v, Arr) and v.kind == "masked":
                     ctx.hold("C02.d", con, d.module.rel, R.line_of(s), "returns a MaskedArray")
+                    if d.is_fuzzy is True:
+                        from engine.arrays import F_
+                        ctx.ob("C02.d", R.ret_key(d, n) + "::fuzzy-is-floating", d.module.rel, R.line_of(s), v.dt == F_,
+                               "fuzzy result is floating, as every fuzzy consumer assumes" if v.dt == F_ else
+                               "this fuzzy producer may return an integer array: fuzzy consumers that finish with in-place float arithmetic (FuzzyUnion, CvtFromFuzzy) then fail, so the result cannot feed every fuzzy input")
                 elif isinstance(v, Arr):
                     ctx.violate("C02.d", con, d.module.rel, R.line_of(s), "returns a %s ndarray: consumers that use .mask / .compressed() / numpy.ma semantics fail or read hidden data" % v.kind)
                 else:
